@@ -111,7 +111,7 @@ def order_case(case):
 
 def cases(tier):
     if tier == "quick":
-        Ns = list(range(4, 131)) + [161, 162, 163]
+        Ns = list(range(4, 131)) + [161, 162, 163, 257, 258]
     else:
         Ns = list(range(4, 331)) + [385, 386, 387, 641, 642, 643, 1000]
     return [{"alg": a, "N": n} for n in Ns for a in ALGS]
@@ -134,7 +134,7 @@ def run(ctx):
         "samples": collect_samples([f"{c['alg']}_{c['N']}" for c in cs], 6),
         "grids": len(cs), "adjacent_pairs": sum(r["adjacent"] for r in res),
         "getter_order_words": sum(r["words"] for r in ores), "getter_order_calls": sum(r["calls"] for r in ores),
-        "exhaustive": True, "bound": {"N": "4..130 + 161-163" if ctx.tier == "quick" else "4..330 + 385-387, 641-643, 1000"},
+        "exhaustive": True, "bound": {"N": "4..130 + 161-163, 257, 258" if ctx.tier == "quick" else "4..330 + 385-387, 641-643, 1000"},
     }
     rep.assumptions = ["tolerance 1e-7 on arcs, angles, areas", "adjacent <=> shared arc longer than 1e-9"]
     return rep
